@@ -1,42 +1,218 @@
-(* B64Proofs: base64 model against RFC 4648 (C16).  Bounded sweeps lifted to
-   universal statements; the statement for all lengths is not proved. *)
-From Coq Require Import List Arith Lia Bool NArith.
+(* B64Proofs: the base64 model against RFC 4648 (C16): nni_base64_encode
+   computes the RFC encoding and nni_base64_decode inverts it, for byte strings
+   of every length (induction on the list in groups of three). *)
+From Coq Require Import List Arith Lia Bool NArith ZArith.
 From NngV Require Import Base.ListX Base.Bytes Codec.B64Model Codec.CodecSpec Codec.WsProofs.
 Import ListNotations.
 Local Open Scope N_scope.
+Ltac Zify.zify_post_hook ::= Z.to_euclidean_division_equations.
 
-Definition all_bytes : list N := map N.of_nat (seq 0 256).
-Definition list_eqb (a b : list N) : bool :=
-  (length a =? length b)%nat && forallb (fun p => fst p =? snd p) (combine a b).
-Lemma list_eqb_eq : forall a b, list_eqb a b = true -> a = b.
+(* ---- masks and shifts as arithmetic ---- *)
+Lemma lor_low n k a : a < 2 ^ n -> N.lor (k * 2 ^ n) a = k * 2 ^ n + a.
 Proof.
-  induction a as [|x a IH]; destruct b as [|y b]; unfold list_eqb; cbn; intros H; try discriminate; auto.
-  apply andb_true_iff in H. destruct H as [L H]. apply andb_true_iff in H. destruct H as [E H].
-  apply N.eqb_eq in E. subst. f_equal. apply IH. unfold list_eqb. rewrite L, H. reflexivity.
+  intros H. rewrite <- N.shiftl_mul_pow2.
+  assert (Z: N.land (N.shiftl k n) a = 0).
+  { apply N.bits_inj_0. intros m. rewrite N.land_spec.
+    destruct (N.ltb_spec m n) as [L|L].
+    - rewrite N.shiftl_spec_low by exact L. reflexivity.
+    - replace (N.testbit a m) with false; [apply andb_false_r|]. symmetry.
+      destruct (N.eq_dec a 0) as [->|NZ]; [apply N.bits_0|].
+      apply N.bits_above_log2. apply N.lt_le_trans with n; [|exact L].
+      apply N.log2_lt_pow2; [lia|exact H]. }
+  rewrite N.add_nocarry_lxor by exact Z. symmetry. apply N.lxor_lor. exact Z.
 Qed.
 
-Definition ok1 (l : list N) : bool :=
-  list_eqb (b64_encode_all l) (spec_b64_encode l) && list_eqb (b64_decode_all (b64_encode_all l)) l
-  && forallb (fun c => b64_alphabet c || (c =? 61)) (b64_encode_all l).
-
-Lemma sweep_len1 : forallb (fun a => ok1 [a]) all_bytes = true.
-Proof. vm_compute. reflexivity. Qed.
-Lemma sweep_len2 : forallb (fun a => forallb (fun b => ok1 [a; b]) all_bytes) all_bytes = true.
-Proof. vm_compute. reflexivity. Qed.
-
-Lemma b64_short l : bytes_ok l -> (length l <= 2)%nat ->
-  b64_encode_all l = spec_b64_encode l /\ b64_decode_all (b64_encode_all l) = l /\
-  forallb (fun c => b64_alphabet c || (c =? 61)) (b64_encode_all l) = true.
+Lemma enc_acc v a : a < 256 -> N.lor (N.shiftl v 8 mod U32) a = 256 * (v mod 16777216) + a.
 Proof.
-  intros Hb Hl.
-  assert (K: ok1 l = true).
-  { destruct l as [|a [|b [|c l]]]; [reflexivity| | |cbn in Hl; lia].
-    - inversion Hb; subst. exact (forall_below 256 _ sweep_len1 a H1).
-    - inversion Hb as [|? ? Ha Hb']; subst. inversion Hb' as [|? ? Hb2 _]; subst.
-      pose proof (forall_below 256 _ sweep_len2 a Ha) as P. cbv beta in P.
-      exact (forall_below 256 _ P b Hb2). }
-  unfold ok1 in K. apply andb_true_iff in K. destruct K as [K K3]. apply andb_true_iff in K. destruct K as [K1 K2].
-  repeat split; auto using list_eqb_eq.
+  intros H. rewrite N.shiftl_mul_pow2. unfold U32. change (2 ^ 8) with 256.
+  change 4294967296 with (16777216 * 256). rewrite N.mul_mod_distr_r by lia.
+  change 256 with (2 ^ 8) at 1. rewrite lor_low by exact H. change (2 ^ 8) with 256. lia.
+Qed.
+
+Lemma dec_acc v i : i < 64 -> N.lor (N.shiftl v 6 mod U32) i = 64 * (v mod 67108864) + i.
+Proof.
+  intros H. rewrite N.shiftl_mul_pow2. unfold U32. change (2 ^ 6) with 64.
+  change 4294967296 with (67108864 * 64). rewrite N.mul_mod_distr_r by lia.
+  change 64 with (2 ^ 6) at 1. rewrite lor_low by exact H. change (2 ^ 6) with 64. lia.
+Qed.
+
+Lemma idx6 v n : N.land (N.shiftr v n) 63 = (v / 2 ^ n) mod 64.
+Proof. rewrite N.shiftr_div_pow2. change 63 with (N.ones 6). rewrite N.land_ones. reflexivity. Qed.
+Lemma idx8 v n : N.land (N.shiftr v n) 255 = (v / 2 ^ n) mod 256.
+Proof. rewrite N.shiftr_div_pow2. change 255 with (N.ones 8). rewrite N.land_ones. reflexivity. Qed.
+Lemma low6 v : N.land v 63 = v mod 64.
+Proof. change 63 with (N.ones 6). apply N.land_ones. Qed.
+
+(* ---- the alphabet ---- *)
+Lemma sym_props : forall i, i < 64 ->
+  b64_char i = b64_sym i /\ is_space (b64_sym i) = false /\ (b64_sym i =? 61) = false /\
+  (128 <=? b64_sym i) = false /\ b64_val (b64_sym i) = i /\ (i =? 255) = false /\ b64_alphabet (b64_sym i) = true.
+Proof.
+  intros i H.
+  assert (Q: forallb (fun i => (b64_char i =? b64_sym i) && negb (is_space (b64_sym i)) && negb (b64_sym i =? 61) &&
+                               negb (128 <=? b64_sym i) && (b64_val (b64_sym i) =? i) && negb (i =? 255) &&
+                               b64_alphabet (b64_sym i))
+               (map N.of_nat (seq 0 64)) = true) by (vm_compute; reflexivity).
+  pose proof (forall_below 64 _ Q i H) as P. cbv beta in P.
+  repeat (apply andb_true_iff in P; destruct P as [P ?]).
+  repeat match goal with
+         | X : negb _ = true |- _ => apply negb_true_iff in X
+         | X : (_ =? _) = true |- _ => apply N.eqb_eq in X
+         end.
+  repeat split; assumption.
+Qed.
+
+(* ---- encoder ---- *)
+Definition enc_finish (r : list byte * N * N) : list byte :=
+  let '(o, v, rem) := r in
+  let o1 := if rem =? 0 then o else o ++ [b64_char (N.land (N.shiftl v (6 - rem) mod U32) 63)] in
+  o1 ++ repeat 61 (pad_count (length o1)).
+
+Lemma b64_encode_all_finish l : b64_encode_all l = enc_finish (enc_loop l 0 0).
+Proof. unfold b64_encode_all, enc_finish. destruct (enc_loop l 0 0) as [[o v] rem]. reflexivity. Qed.
+
+Lemma pad_count_4 n : pad_count (4 + n) = pad_count n.
+Proof.
+  unfold pad_count. replace (Nat.modulo (4 + n) 4) with (Nat.modulo n 4); [reflexivity|].
+  rewrite Nat.add_comm. replace (n + 4)%nat with (n + 1 * 4)%nat by lia. rewrite Nat.mod_add by lia. reflexivity.
+Qed.
+
+Lemma enc_finish_4 s1 s2 s3 s4 o v rem :
+  enc_finish (s1 :: s2 :: s3 :: s4 :: o, v, rem) = s1 :: s2 :: s3 :: s4 :: enc_finish (o, v, rem).
+Proof.
+  unfold enc_finish. destruct (rem =? 0); cbn [app length]; rewrite ?app_length;
+    change (S (S (S (S ?n)))) with (4 + n)%nat; rewrite pad_count_4; reflexivity.
+Qed.
+
+Lemma list_ind3 (P : list byte -> Prop) :
+  P [] -> (forall a, P [a]) -> (forall a b, P [a; b]) ->
+  (forall a b c r, P r -> P (a :: b :: c :: r)) -> forall l, P l.
+Proof.
+  intros H0 H1 H2 H3.
+  assert (K: forall n l, (length l <= n)%nat -> P l).
+  { induction n as [|n IH]; intros l Hl.
+    - destruct l; [exact H0|cbn in Hl; lia].
+    - destruct l as [|a [|b [|c r]]]; auto. apply H3. apply IH. cbn in Hl. lia. }
+  intros l. exact (K (length l) l (le_n _)).
+Qed.
+
+Lemma sym_eq x y : x = y -> x < 64 -> b64_char x = b64_sym y.
+Proof. intros -> H. apply sym_props. exact H. Qed.
+
+Lemma emit8 v : enc_emit v 8 = ([b64_char (N.land (N.shiftr v 2) 63)], 2).
+Proof. reflexivity. Qed.
+Lemma emit10 v : enc_emit v 10 = ([b64_char (N.land (N.shiftr v 4) 63)], 4).
+Proof. reflexivity. Qed.
+Lemma emit12 v : enc_emit v 12 = ([b64_char (N.land (N.shiftr v 6) 63); b64_char (N.land (N.shiftr v 0) 63)], 0).
+Proof. reflexivity. Qed.
+
+Lemma enc_loop_cons ch r v rem :
+  enc_loop (ch :: r) v rem =
+    let v1 := N.lor (N.shiftl v 8 mod U32) ch in
+    let '(o, rem1) := enc_emit v1 (rem + 8) in
+    let '(o2, v2, rem2) := enc_loop r v1 rem1 in (o ++ o2, v2, rem2).
+Proof. reflexivity. Qed.
+
+Ltac arith_forms :=
+  rewrite ?idx6, ?low6, ?N.shiftl_mul_pow2, ?N.shiftr_0_r; unfold U32;
+  change (2 ^ 2) with 4; change (2 ^ 4) with 16; change (2 ^ 6) with 64.
+
+Ltac enc_step H :=
+  rewrite enc_loop_cons; cbv zeta; rewrite enc_acc by exact H.
+
+Lemma enc_all_spec : forall l v, bytes_ok l -> enc_finish (enc_loop l v 0) = spec_b64_encode l.
+Proof.
+  induction l as [| a | a b | a b c r IH] using list_ind3; intros v Hb.
+  - reflexivity.
+  - inversion Hb as [|? ? Ha _]; subst.
+    enc_step Ha. change (0 + 8) with 8. rewrite emit8. cbv beta iota. cbn [enc_loop app].
+    unfold enc_finish. change (2 =? 0) with false. cbv iota. change (6 - 2) with 4.
+    cbn [app length]. change (pad_count 2) with 2%nat. cbn [repeat app].
+    unfold spec_b64_encode. arith_forms.
+    f_equal; [|f_equal]; apply sym_eq; lia.
+  - inversion Hb as [|? ? Ha Hb']; subst. inversion Hb' as [|? ? Hb2 _]; subst.
+    enc_step Ha. change (0 + 8) with 8. rewrite emit8. cbv beta iota.
+    enc_step Hb2. change (2 + 8) with 10. rewrite emit10. cbv beta iota. cbn [enc_loop app].
+    unfold enc_finish. change (4 =? 0) with false. cbv iota. change (6 - 4) with 2.
+    cbn [app length]. change (pad_count 3) with 1%nat. cbn [repeat app].
+    unfold spec_b64_encode. arith_forms.
+    f_equal; [|f_equal; [|f_equal]]; apply sym_eq; lia.
+  - inversion Hb as [|? ? Ha Hb']; subst. inversion Hb' as [|? ? Hb2 Hb'']; subst.
+    inversion Hb'' as [|? ? Hc Hr]; subst.
+    enc_step Ha. change (0 + 8) with 8. rewrite emit8. cbv beta iota.
+    enc_step Hb2. change (2 + 8) with 10. rewrite emit10. cbv beta iota.
+    enc_step Hc. change (4 + 8) with 12. rewrite emit12. cbv beta iota.
+    set (v1 := 256 * (v mod 16777216) + a). set (v2 := 256 * (v1 mod 16777216) + b).
+    set (v3 := 256 * (v2 mod 16777216) + c).
+    specialize (IH v3 Hr). destruct (enc_loop r v3 0) as [[o2 vv] rr].
+    cbn [app]. rewrite enc_finish_4, IH.
+    cbn [spec_b64_encode]. arith_forms.
+    f_equal; [|f_equal; [|f_equal; [|f_equal]]]; apply sym_eq; subst v1 v2 v3; lia.
+Qed.
+
+Lemma b64_encode_is_rfc l : bytes_ok l -> b64_encode_all l = spec_b64_encode l.
+Proof. intros H. rewrite b64_encode_all_finish. apply enc_all_spec. exact H. Qed.
+
+(* ---- decoder ---- *)
+Lemma dec_sym i r v rem : i < 64 ->
+  dec_loop (b64_sym i :: r) v rem =
+    if 8 <=? rem + 6
+    then N.land (N.shiftr (64 * (v mod 67108864) + i) (rem + 6 - 8)) 255 :: dec_loop r (64 * (v mod 67108864) + i) (rem + 6 - 8)
+    else dec_loop r (64 * (v mod 67108864) + i) (rem + 6).
+Proof.
+  intros H. destruct (sym_props i H) as (_ & A & B & C & D & E & _).
+  cbn [dec_loop]. rewrite A, B, C, D, E. rewrite dec_acc by exact H. reflexivity.
+Qed.
+
+Lemma dec_pad r v rem : dec_loop (61 :: r) v rem = [].
+Proof. reflexivity. Qed.
+
+Ltac dec_forms :=
+  rewrite ?idx8, ?N.shiftr_0_r; change (2 ^ 0) with 1; change (2 ^ 2) with 4; change (2 ^ 4) with 16.
+
+Lemma dec_all_spec : forall l v, bytes_ok l -> dec_loop (spec_b64_encode l) v 0 = l.
+Proof.
+  induction l as [| a | a b | a b c r IH] using list_ind3; intros v Hb.
+  - reflexivity.
+  - inversion Hb as [|? ? Ha _]; subst. cbn [spec_b64_encode].
+    rewrite dec_sym by lia. change (8 <=? 0 + 6) with false. cbv iota. change (0 + 6) with 6.
+    rewrite dec_sym by lia. change (8 <=? 6 + 6) with true. cbv iota. change (6 + 6 - 8) with 4.
+    rewrite dec_pad. dec_forms. f_equal. lia.
+  - inversion Hb as [|? ? Ha Hb']; subst. inversion Hb' as [|? ? Hb2 _]; subst. cbn [spec_b64_encode].
+    rewrite dec_sym by lia. change (8 <=? 0 + 6) with false. cbv iota. change (0 + 6) with 6.
+    rewrite dec_sym by lia. change (8 <=? 6 + 6) with true. cbv iota. change (6 + 6 - 8) with 4.
+    rewrite dec_sym by lia. change (8 <=? 4 + 6) with true. cbv iota. change (4 + 6 - 8) with 2.
+    rewrite dec_pad. dec_forms. f_equal; [|f_equal]; lia.
+  - inversion Hb as [|? ? Ha Hb']; subst. inversion Hb' as [|? ? Hb2 Hb'']; subst.
+    inversion Hb'' as [|? ? Hc Hr]; subst. cbn [spec_b64_encode].
+    rewrite dec_sym by lia. change (8 <=? 0 + 6) with false. cbv iota. change (0 + 6) with 6.
+    rewrite dec_sym by lia. change (8 <=? 6 + 6) with true. cbv iota. change (6 + 6 - 8) with 4.
+    rewrite dec_sym by lia. change (8 <=? 4 + 6) with true. cbv iota. change (4 + 6 - 8) with 2.
+    rewrite dec_sym by lia. change (8 <=? 2 + 6) with true. cbv iota. change (2 + 6 - 8) with 0.
+    rewrite IH by exact Hr. dec_forms. f_equal; [|f_equal; [|f_equal]]; lia.
+Qed.
+
+Theorem b64_roundtrip l : bytes_ok l ->
+  b64_encode_all l = spec_b64_encode l /\ b64_decode_all (b64_encode_all l) = l.
+Proof.
+  intros H. split; [apply b64_encode_is_rfc; exact H|].
+  rewrite b64_encode_is_rfc by exact H. apply dec_all_spec. exact H.
+Qed.
+
+(* every character emitted is of the alphabet or the pad character *)
+Lemma spec_alphabet : forall l, bytes_ok l ->
+  forallb (fun c => b64_alphabet c || (c =? 61)) (spec_b64_encode l) = true.
+Proof.
+  assert (S: forall i, i < 64 -> b64_alphabet (b64_sym i) || (b64_sym i =? 61) = true).
+  { intros i H. destruct (sym_props i H) as (_ & _ & _ & _ & _ & _ & A). rewrite A. reflexivity. }
+  induction l as [| a | a b | a b c r IH] using list_ind3; intros Hb.
+  - reflexivity.
+  - inversion Hb as [|? ? Ha _]; subst. cbn [spec_b64_encode forallb]. rewrite !S by lia. reflexivity.
+  - inversion Hb as [|? ? Ha Hb']; subst. inversion Hb' as [|? ? Hb2 _]; subst.
+    cbn [spec_b64_encode forallb]. rewrite !S by lia. reflexivity.
+  - inversion Hb as [|? ? Ha Hb']; subst. inversion Hb' as [|? ? Hb2 Hb'']; subst.
+    inversion Hb'' as [|? ? Hc Hr]; subst.
+    cbn [spec_b64_encode forallb]. rewrite !S by lia. rewrite IH by exact Hr. reflexivity.
 Qed.
 
 (* RFC 4648 section 10 test vectors, and the Sec-WebSocket-Accept sized case (20 bytes -> 28 characters) *)
